@@ -4,6 +4,7 @@ import re
 
 from ..core import AnalysisError
 from ..pyfront import (unparse, try_const, path_conditions, norm_key, names_in, attr_chain, terminates)
+from ..pyfront import ws  # noqa: E402,F401
 
 RUNTIME = ('prophy.composite', 'prophy.container', 'prophy.descriptor', 'prophy.generators', 'prophy.scalar',
            'prophy.optional', 'prophy.base_array', 'prophy.composite_base')
@@ -359,10 +360,11 @@ def f1_union_encode(ctx, L):
 def f1_optional_encode(ctx, L):
     f = ctx.py.mod('prophy.descriptor').func('encode_optional')
     rets = [r for r in ast.walk(f.node) if isinstance(r, ast.Return)]
-    present = [r for r in rets if any(unparse(t) == 'value is None' and not p for t, p, h in path_conditions(f.module, f, r))]
-    ok = len(present) == 1 and re.sub(r'\s+', ' ', unparse(present[0].value)) == \
-        "type_._optional_type._encode(True, endianness).ljust(type_._OPTIONAL_ALIGNMENT, b'\\x00') + " \
-        "type_._encode(parent, type_.__bases__[0], value, endianness)"
+    EO = ['parent', 'type_', 'value', 'endianness']
+    present = [r for r in rets if knows(f, r, 'value is None', False, EO)]
+    ok = len(present) == 1 and sem_is(f, present[0].value,
+                                      "type_._optional_type._encode(True, endianness).ljust(type_._OPTIONAL_ALIGNMENT, b'\\x00') + "
+                                      "type_._encode(parent, type_.__bases__[0], value, endianness)", EO)
     L.check(ok, 'F1.optional-steps', 'encode_optional|present', f.site(present[0] if present else None),
             'present optional: flag (true) padded to _OPTIONAL_ALIGNMENT, then the value encoded with the base type codec',
             unparse(present[0].value) if present else '')
@@ -376,21 +378,19 @@ def is_remaining(node, data='data', pos='pos'):
 
 
 def remaining_guards(f, target, aliases=None):
-    """Sizes S for which `remaining >= S` holds at target (guards `remaining < S -> raise ProphyError`)."""
+    """Sizes S for which `remaining >= S` is known at target because `remaining < S` (in any spelling) leaves with a raise.
+    Path conditions come in atomic normal form: a failed `remaining < S` is the fact `S <= remaining`."""
     out = []
     aliases = aliases or {}
     for test, pol, how in path_conditions(f.module, f, target):
-        if not isinstance(test, ast.Compare) or len(test.ops) != 1:
+        if not isinstance(test, ast.Compare) or len(test.ops) != 1 or not pol:
             continue
         l, r, op = test.left, test.comparators[0], test.ops[0]
 
         def rem(x):
             return is_remaining(x) or (isinstance(x, ast.Name) and x.id in aliases)
-        if how.startswith('early-exit') and pol is False:
-            if isinstance(op, ast.Lt) and rem(l):
-                out.append((unparse(r), how))
-            elif isinstance(op, ast.Gt) and rem(r):
-                out.append((unparse(l), how))
+        if how.startswith('early-exit') and isinstance(op, (ast.LtE, ast.Lt)) and rem(r):
+            out.append((unparse(l), how))
     return out
 
 
@@ -483,13 +483,14 @@ def f6_count_guard(ctx, L):
             shifted = True
         if isinstance(s, ast.If) and isinstance(s.test, ast.Compare) and terminates(s.body) and not s.orelse \
                 and isinstance(s.body[-1], ast.Raise) and unparse(s.body[-1].exc).startswith('ProphyError('):
-            t = s.test
-            l, op, r = unparse(t.left), t.ops[0], t.comparators[0]
-            ok, v = try_const(r, env)
-            if l == 'value' and isinstance(op, (ast.Gt, ast.GtE)) and not shifted and ok and isinstance(v, int) \
-                    and 0 < v <= (1 << 24):
-                upper = True      # tested on the raw decoded value, before the shift
-            if l == 'value' and isinstance(op, ast.Lt) and shifted and ok and v == 0:
+            t = s.test          # normal form (sa/canon.py): only < and <= occur
+            l, op, r = t.left, t.ops[0], t.comparators[0]
+            okl, vl = try_const(l, env)
+            okr, vr = try_const(r, env)
+            if unparse(r) == 'value' and isinstance(op, (ast.Lt, ast.LtE)) and not shifted and okl and isinstance(vl, int) \
+                    and 0 < vl <= (1 << 24):
+                upper = True      # bound < value: tested on the raw decoded value, before the shift
+            if unparse(l) == 'value' and isinstance(op, ast.Lt) and shifted and okr and vr == 0:
                 lower = True      # tested after the shift
     L.check(upper, 'F6.count-bounded', f.fq + '|upper', f.site(),
             'the decoded element count is not rejected above a constant bound before use: a few bytes can drive '
@@ -569,7 +570,8 @@ def _canon(src_or_node, globals_):
     node = src_or_node
     if isinstance(node, str):
         try:
-            node = ast.parse(node).body[0]
+            from .. import canon as _cn
+            node = _cn.normalise(ast.parse(node)).body[0]     # expected fragments are compared in normal form (E1b)
         except SyntaxError:
             return re.sub(r'\s+', ' ', src_or_node)
     import copy
@@ -586,7 +588,7 @@ def _canon(src_or_node, globals_):
     for n in ast.walk(node):
         if isinstance(n, ast.arg) and n.arg in order:
             n.arg = order[n.arg]
-    return re.sub(r'\s+', ' ', unparse(node))
+    return ws(unparse(node))
 
 
 import keyword as _keyword
@@ -622,11 +624,39 @@ def contains(src, piece, globals_):
     """`piece in src` modulo consistent renaming of local names (and inside string literals nothing is renamed: a quoted
     word is literal because quotes are ordinary characters and identifiers inside keep their spelling only if global -
     so pieces with string literals are matched literally first)."""
-    if piece in src:
-        return True
-    if "'" in piece or '"' in piece:
-        return False
-    return piece_regex(piece, globals_).search(src) is not None
+    for cand in piece_forms(piece):
+        if cand in src:
+            return True
+        if "'" in cand or '"' in cand:
+            continue
+        if piece_regex(cand, globals_).search(src) is not None:
+            return True
+    return False
+
+
+_FORMS = {}
+
+
+def piece_forms(piece):
+    """The fragment as written and, when it parses, its normal form (E1b, sa/canon.py) with whitespace collapsed.
+    Multi-line fragments (real code) are always reduced to the normal form."""
+    if piece not in _FORMS:
+        from .. import canon as _cn
+        forms = [] if '\n' in piece else [piece]
+        n = _cn.normal_text(piece if '\n' not in piece else _dedent(piece))
+        if n is not None:
+            n = re.sub(r'\s+', ' ', n).strip()
+            if n not in forms:
+                forms.append(n)
+        elif '\n' in piece:
+            raise AnalysisError('expected fragment does not parse: %r' % piece[:80])
+        _FORMS[piece] = forms
+    return _FORMS[piece]
+
+
+def _dedent(s):
+    import textwrap
+    return textwrap.dedent(s.strip('\n'))
 
 
 ALL_GLOBALS = set()
@@ -705,21 +735,21 @@ def f16_runtime_layout(ctx, L):
             f.site(seed), 'the fold over alignments must start from 1', unparse(seed))
     tv = unparse(lp.target)                                   # the member-type loop variable
     av = unparse(seed.targets[0]) if isinstance(seed, ast.Assign) else 'alignment'   # the running block alignment
-    body = [re.sub(r'\s+', ' ', unparse(s)) for s in lp.body]
+    body = [ws(unparse(s)) for s in lp.body]
     want_tail = ['%s = max(wire_alignment(%s), %s)' % (av, tv, av),
                  '%s = max(%s._OPTIONAL_ALIGNMENT if %s._OPTIONAL else %s._ALIGNMENT, %s)' % (av, tv, tv, tv, av)]
     L.check(len(lp.body) == 2 and isinstance(lp.body[0], ast.If) and body[1] in want_tail, 'F16.block-alignment-fold',
             'add_attributes|aggregate', f.site(lp), 'each member must contribute max(slot alignment, running alignment) after the '
             'dynamic-field test', ' ; '.join(body))
     if isinstance(lp.body[0], ast.If):
-        ib = [re.sub(r'\s+', ' ', unparse(s)) for s in lp.body[0].body]
+        ib = [ws(unparse(s)) for s in lp.body[0].body]
         L.check(ib == ['%s._PARTIAL_ALIGNMENT = %s' % (tv, av), '%s = 1' % av] and not lp.body[0].orelse,
                 'F16.block-alignment-fold', 'add_attributes|block-end', f.site(lp.body[0]),
                 'a dynamic field closes a block: it gets the alignment of the block that follows, then the fold restarts at 1',
                 ' ; '.join(ib))
         block_splitter(ctx, L, f, lp.body[0].test, tv)
     inner = gen.func('struct_generator.add_attributes.get_padded_sizes')
-    src = re.sub(r'\s+', ' ', unparse(inner.node))
+    src = ws(unparse(inner.node))
     for piece, why in (('offset = 0', 'offsets start at 0'), ('for size, alignment in zip(sizes, alignments):', 'each size is paired with the alignment of the NEXT member (the last with the struct alignment)'),
                        ('offset += size', 'the running offset adds each slot size'),
                        ('padding = distance_to_next_multiply(offset, alignment)', 'padding is the distance to the next multiple'),
@@ -728,7 +758,7 @@ def f16_runtime_layout(ctx, L):
     L.check(inn('types[1:]] + [cls._ALIGNMENT]', src), 'F16.layout-formula', 'get_padded_sizes|next-alignment', inner.site(),
             'padding after member i aligns member i+1; after the last member, the struct', '')
     guard = [n for n in f.node.body if isinstance(n, ast.If) and 'struct_packed' in unparse(n.test)]
-    L.check(len(guard) == 1 and re.sub(r'\s+', ' ', unparse(guard[0].test)) == 'not issubclass(cls, struct_packed) and cls._descriptor',
+    L.check(len(guard) == 1 and ws(unparse(guard[0].test)) == 'not issubclass(cls, struct_packed) and cls._descriptor',
             'F16.layout-formula', 'add_attributes|packed-guard', f.site(), 'padding is skipped exactly for struct_packed', '')
     # union
     u = gen.func('union_generator.add_attributes')
@@ -757,7 +787,7 @@ def f16_runtime_layout(ctx, L):
     cls = [c for c in a.node.body if isinstance(c, ast.ClassDef)]
     if len(cls) != 1:
         raise AnalysisError('array(): class _array not found')
-    attrs = {unparse(s.targets[0]): re.sub(r'\s+', ' ', unparse(s.value)) for s in cls[0].body if isinstance(s, ast.Assign)}
+    attrs = {unparse(s.targets[0]): ws(unparse(s.value)) for s in cls[0].body if isinstance(s, ast.Assign)}
     want = {'_max_len': 'size', '_TYPE': 'type_', '_SIZE': 'size * type_._SIZE', '_DYNAMIC': 'not size',
             '_UNLIMITED': 'not size and (not bound)', '_OPTIONAL': 'False', '_ALIGNMENT': 'type_._ALIGNMENT', '_BOUND': 'bound',
             '_BOUND_SHIFT': 'shift', '_PARTIAL_ALIGNMENT': 'None'}
@@ -766,7 +796,7 @@ def f16_runtime_layout(ctx, L):
                 'static %s of an array class must be `%s`' % (k, v), str(attrs.get(k)))
     b = ctx.py.mod('prophy.composite').func('bytes_')
     cls = [c for c in b.node.body if isinstance(c, ast.ClassDef)]
-    attrs = {unparse(s.targets[0]): re.sub(r'\s+', ' ', unparse(s.value)) for s in cls[0].body if isinstance(s, ast.Assign)}
+    attrs = {unparse(s.targets[0]): ws(unparse(s.value)) for s in cls[0].body if isinstance(s, ast.Assign)}
     want = {'_SIZE': 'size', '_DYNAMIC': 'not size', '_UNLIMITED': 'not size and (not bound)', '_OPTIONAL': 'False',
             '_ALIGNMENT': '1', '_BOUND': 'bound', '_BOUND_SHIFT': 'shift', '_PARTIAL_ALIGNMENT': 'None'}
     for k, v in want.items():
@@ -866,7 +896,7 @@ def slot_sizes(ctx, L):
                     ('fixed_scalar_array._encode_impl', 'self._TYPE._encode(value, endianness)'),
                     ('fixed_composite_array._encode_impl', 'value.encode(endianness)')):
         f = cont.func(q)
-        src = re.sub(r'\s+', ' ', unparse(f.node.body[-1]))
+        src = ws(unparse(f.node.body[-1]))
         core = "return b''.join((%s for value in self))" % elem
         G_ = module_globals(f.module)
         if q.startswith('bound'):
@@ -921,3 +951,225 @@ def codec_dispatch(ctx, L):
     L.check(has(ev, 'self.type._encode = staticmethod(opt_encode)') and has(ev, 'self.type._decode = staticmethod(opt_decode)')
             and has(ev, 'base_kind = codec_kind.classify(self.type.__bases__[0])'), 'F10.codec-dispatch',
             'evaluate_codecs|optional-base', ev.site(), 'an optional delegates to the codec of its base type', '')
+
+
+# ------------------------------------------------------------------------------------------------ semantic text (E1c)
+def _assigned_names(f):
+    """{name: number of binding occurrences} over the function body (assignments, augmented assignments, loop / with /
+    comprehension targets, except-as, imports)."""
+    cnt = {}
+    for n in f.walk():
+        if isinstance(n, ast.Name) and isinstance(n.ctx, (ast.Store, ast.Del)):
+            cnt[n.id] = cnt.get(n.id, 0) + 1
+        elif isinstance(n, ast.AugAssign) and isinstance(n.target, ast.Name):
+            cnt[n.target.id] = cnt.get(n.target.id, 0) + 1
+        elif isinstance(n, ast.ExceptHandler) and n.name:
+            cnt[n.name] = cnt.get(n.name, 0) + 1
+    return cnt
+
+
+_PURE_CALLS = ('len', 'max', 'min', 'abs', 'isinstance', 'issubclass', 'bool', 'int', 'sum', 'any', 'all', 'type', 'getattr',
+               'hasattr', 'tuple', 'frozenset', 'str', 'repr')
+
+
+def _pure(e):
+    for n in ast.walk(e):
+        if isinstance(n, ast.Call):
+            fn = unparse(n.func)
+            if fn not in _PURE_CALLS and not fn.startswith('os.path.'):
+                return False
+        elif isinstance(n, (ast.Yield, ast.YieldFrom, ast.Await, ast.NamedExpr, ast.Lambda)):
+            return False
+    # a fresh mutable container is an object, not a value: the name stands for that one object
+    if isinstance(e, (ast.List, ast.Dict, ast.Set, ast.ListComp, ast.SetComp, ast.DictComp, ast.GeneratorExp)):
+        return False
+    return True
+
+
+def local_defs(f):
+    """Locals with exactly one binding `name = <pure expression>` whose operands are themselves never rebound in the function
+    (so the expression means the same wherever the name is used): they may be replaced by their definition."""
+    cnt = _assigned_names(f)
+    defs = {}
+    for n in f.walk():
+        if isinstance(n, ast.Assign) and len(n.targets) == 1 and isinstance(n.targets[0], ast.Name) and cnt.get(n.targets[0].id) == 1 \
+                and n.targets[0].id not in f.params and _pure(n.value):
+            defs[n.targets[0].id] = n.value
+    changed = True
+    while changed:
+        changed = False
+        for k, v in list(defs.items()):
+            for x in ast.walk(v):
+                if isinstance(x, ast.Name) and x.id != k and (cnt.get(x.id, 0) > (1 if x.id in defs else 0)):
+                    defs.pop(k)
+                    changed = True
+                    break
+    return defs
+
+
+def _sem(node, params, defs, globals_):
+    import copy
+    from .. import canon as _cn
+    node = copy.deepcopy(node)
+
+    class T(ast.NodeTransformer):
+        depth = 0
+
+        def visit_Name(self, n):
+            if n.id in params and isinstance(n.ctx, ast.Load):
+                return ast.copy_location(ast.Name(id='_P%d' % params.index(n.id), ctx=n.ctx), n)
+            if n.id in defs and isinstance(n.ctx, ast.Load) and self.depth < 6:
+                self.depth += 1
+                r = self.visit(copy.deepcopy(defs[n.id]))
+                self.depth -= 1
+                return r
+            return n
+    wrap = ast.Module(body=[node if isinstance(node, ast.stmt) else ast.Expr(value=node)], type_ignores=[])
+    wrap = T().visit(wrap)
+    ast.fix_missing_locations(wrap)
+    wrap = _cn.normalise(wrap)
+    order = {}
+    for n in sorted((n for n in ast.walk(wrap) if isinstance(n, ast.Name)), key=lambda n: (getattr(n, 'lineno', 0), getattr(n, 'col_offset', 0))):
+        if n.id in globals_ or hasattr(_builtins, n.id) or n.id in ('self', 'cls') or n.id.startswith('_P'):
+            continue
+        if n.id not in order:
+            order[n.id] = '_L%d' % len(order)
+        n.id = order[n.id]
+    return ws(unparse(wrap)).strip()
+
+
+def sem_text(f, node):
+    """Meaning-level text of an expression / statement of `f`: parameters by position, single-definition pure locals replaced by
+    their definitions, remaining locals numbered, normal form (sa/canon.py)."""
+    return _sem(node, list(f.params), local_defs(f), module_globals(f.module) | ALL_GLOBALS)
+
+
+def sem_expected(text, params, module=None):
+    """The same for an expected fragment written with the parameter names `params` (positional)."""
+    tree = ast.parse(_dedent(text))
+    node = tree.body[0] if len(tree.body) == 1 else tree
+    if isinstance(node, ast.Expr):
+        node = node.value
+    if isinstance(node, ast.Module):
+        raise AnalysisError('sem_expected takes one statement or expression: %r' % text[:60])
+    g = set(ALL_GLOBALS) | (module_globals(module) if module is not None else set())
+    return _sem(node, list(params), {}, g)
+
+
+def sem_is(f, node, text, params=None):
+    return sem_text(f, node) == sem_expected(text, params if params is not None else f.params, f.module)
+
+
+def facts(f, node):
+    """What is known to hold when `node` starts executing (path conditions in atomic form), as {(meaning-level text, polarity)}."""
+    return set((sem_text(f, t), pol) for t, pol, how in path_conditions(f.module, f, node))
+
+
+def facts_how(f, node):
+    return [(sem_text(f, t), pol, how) for t, pol, how in path_conditions(f.module, f, node)]
+
+
+def expected_facts(guard, holds, params, module=None):
+    """The atomic facts of `guard` (an expression written with the parameter names `params`) holding / failing."""
+    from ..pyfront import atomise
+    from .. import canon as _cn
+    tree = _cn.normalise(ast.parse(guard.strip(), mode='eval'))
+    g = set(ALL_GLOBALS) | (module_globals(module) if module is not None else set())
+    return set((_sem(t, list(params), {}, g), pol) for t, pol, how in atomise([(tree.body, holds, 'expected')]))
+
+
+def knows(f, node, guard, holds, params=None):
+    """Is `guard` known to hold (or to fail) whenever `node` is reached?"""
+    return expected_facts(guard, holds, params if params is not None else f.params, f.module) <= facts(f, node)
+
+
+class _FakeFunc(object):
+    """Expected code given as text, wrapped so that it is processed exactly like a function of the repository."""
+
+    def __init__(self, text, params, module=None):
+        src = 'def _expected(%s):\n%s' % (', '.join(params), '\n'.join('    ' + l for l in _dedent(text).splitlines()))
+        from .. import canon as _cn
+        self.node = _cn.normalise(ast.parse(src)).body[0]
+        self.params = list(params)
+        self.module = module
+
+    def walk(self, into_nested=False):
+        stack = list(self.node.body)
+        while stack:
+            n = stack.pop()
+            yield n
+            stack.extend(ast.iter_child_nodes(n))
+
+
+def _body(node):
+    body = list(node.body)
+    if body and isinstance(body[0], ast.Expr) and isinstance(body[0].value, ast.Constant) and isinstance(body[0].value.value, str):
+        body = body[1:]
+    return body
+
+
+def sem_body(f):
+    g = (module_globals(f.module) if f.module is not None else set()) | ALL_GLOBALS
+    defs = local_defs(f)
+    out = []
+    for st in _body(f.node):
+        if isinstance(st, ast.Assign) and len(st.targets) == 1 and isinstance(st.targets[0], ast.Name) and st.targets[0].id in defs:
+            continue        # the definition of an inlined local
+        out.append(_sem(st, list(f.params), defs, g))
+    return ' ; '.join(out)
+
+
+def body_is(f, *alternatives, **kw):
+    """The whole body of `f` means the same as one of the expected bodies (written as real code with the parameter names
+    `params`, default: the function's own)."""
+    params = kw.get('params') or f.params
+    got = sem_body(f)
+    return any(got == sem_body(_FakeFunc(a, params, f.module)) for a in alternatives)
+
+
+def trace(f, am, member_var, props, env=None, body=None):
+    """What `f` does for one abstract member, at meaning level: the statements executed on the member's path (single-definition
+    locals replaced by their definitions, parameters by position, state guards kept as conditions) and how the path ends."""
+    from .. import predabs
+    ev = predabs.Evaluator(props, member_var, dict(env or {}))
+    effects, outcome = predabs.abstract_exec(_body(f.node) if body is None else body, ev, am, [member_var])
+    g = (module_globals(f.module) if f.module is not None else set()) | ALL_GLOBALS
+    defs = local_defs(f)
+    out = []
+    for text, maybe, node in effects:
+        if isinstance(node, ast.Assign) and len(node.targets) == 1 and isinstance(node.targets[0], ast.Name) and node.targets[0].id in defs:
+            continue
+        conds = tuple(('' if pol else 'not ') + _sem(t, list(f.params), defs, g) for pol, t in maybe)
+        out.append((conds, _sem(node, list(f.params), defs, g)))
+    return out, outcome if isinstance(outcome, str) else outcome[0]
+
+
+def differs_from_reference(f, reference, params, member_var, props, domain, env=None):
+    """Abstract members for which `f` does not do what the reference code (real code, same parameter order) does:
+    [(member, got trace, reference trace)]."""
+    ref = _FakeFunc(reference, params, f.module)
+    out = []
+    env_f = dict((f.params[params.index(k)] if k in params and params.index(k) < len(f.params) else k, v) for k, v in (env or {}).items())
+    if len(f.params) != len(params):
+        return [(None, 'parameters %s' % f.params, 'parameters %s' % params)]
+    for am in domain:
+        got = trace(f, am, f.params[params.index(member_var)], props, env_f)
+        want = trace(ref, am, member_var, props, env)
+        if got != want:
+            out.append((am, got, want))
+    return out
+
+
+def _src_hook(piece, src):
+    """`piece in src` for pyfront.Src: normal form of the fragment, local names consistently renamable."""
+    if not isinstance(piece, str) or len(piece) < 10 or not re.search(r'[\s(=\[]', piece.strip()):
+        return False        # a bare word is looked up literally only
+    text = src if '\n' not in src else re.sub(r'\s+', ' ', str(src))
+    try:
+        return contains(str(text), piece, ALL_GLOBALS)
+    except AnalysisError:
+        return False
+
+
+from ..pyfront import Src as _Src  # noqa: E402
+_Src.hook = staticmethod(_src_hook)
